@@ -37,11 +37,23 @@ D10 == << N("OP", 0, "", "query"), N("F", 1, "lp", ""), N("F", 2, "s", "") >>
 \* D11 (invalid): the same operation name twice   query A { s }  query A { i }
 D11 == << N("OP", 0, "A", "query"), N("F", 1, "s", ""), N("OP", 0, "A", "query"), N("F", 3, "i", "") >>
 
+\* D12: an enum variable   query ($z: Sz) { fz(a: $z) }   (sent with a value name and with a misspelt one)
+D12 == << [N("OP", 0, "", "query") EXCEPT !.vdefs = <<VDef("z", <<"Sz">>)>>],
+          [N("F", 1, "fz", "") EXCEPT !.args = <<[name |-> "a", val |-> [t |-> "var", v |-> "z"]]>>] >>
+
+\* D13 / D14: two documents declaring the same variable with different list defaults
+\*   query ($l: [Int] = [1]) { h(i: {r: 1, l: $l}) }      query ($l: [Int] = [2, 3]) { h(i: {r: 1, l: $l}) }
+DL(items) == << [N("OP", 0, "", "query") EXCEPT !.vdefs = <<[name |-> "l", type |-> <<"L", "Int">>, hasDefault |-> TRUE, default |-> [t |-> "list", v |-> items]]>>],
+                [N("F", 1, "h", "") EXCEPT !.args = <<[name |-> "i", val |-> [t |-> "obj", v |-> << <<"r", [t |-> "int", v |-> 1]>>, <<"l", [t |-> "var", v |-> "l"]>> >>]]>>] >>
+D13 == DL(<<[t |-> "int", v |-> 1]>>)
+D14 == DL(<<[t |-> "int", v |-> 2], [t |-> "int", v |-> 3]>>)
+
 DocsStd == [ D1 |-> [class |-> "valid", nodes |-> D1], D2 |-> [class |-> "valid", nodes |-> D2],
              D3 |-> [class |-> "invalid", nodes |-> D3], D4 |-> [class |-> "broken", nodes |-> D4],
              D5 |-> [class |-> "valid", nodes |-> D5], D6 |-> [class |-> "valid", nodes |-> D6],
              D7 |-> [class |-> "invalid", nodes |-> D7], D8 |-> [class |-> "invalid", nodes |-> D8],
-             D9 |-> [class |-> "valid", nodes |-> D9], D10 |-> [class |-> "valid", nodes |-> D10], D11 |-> [class |-> "invalid", nodes |-> D11] ]
+             D9 |-> [class |-> "valid", nodes |-> D9], D10 |-> [class |-> "valid", nodes |-> D10], D11 |-> [class |-> "invalid", nodes |-> D11],
+             D12 |-> [class |-> "valid", nodes |-> D12], D13 |-> [class |-> "valid", nodes |-> D13], D14 |-> [class |-> "valid", nodes |-> D14] ]
 
 Rq(d, sp, opn, g) == [doc |-> d, spelling |-> sp, opName |-> opn, given |-> g]
 PoolStd == { Rq("D1", "str", "A", <<>>), Rq("D1", "str", "B", <<>>), Rq("D1", "bytes", "A", <<>>), Rq("D1", "str", "", <<>>),
@@ -55,7 +67,9 @@ PoolEnv == PoolStd \cup { Rq("D2", "str", "", [v |-> Bool(TRUE), extra |-> Int(1
                           Rq("D3", "bytes", "A", <<>>), Rq("D4", "str", "A", [v |-> Bool(TRUE)]) }
 \* history-sensitive documents: widening fragment then the other implementer; invalid documents of several rules, repeated
 PoolHist == { Rq("D9", "str", "", <<>>), Rq("D10", "str", "", <<>>), Rq("D11", "str", "A", <<>>), Rq("D11", "bytes", "A", <<>>),
-              Rq("D7", "str", "", <<>>), Rq("D3", "str", "", <<>>), Rq("D1", "str", "A", <<>>) }
+              Rq("D7", "str", "", <<>>), Rq("D3", "str", "", <<>>), Rq("D1", "str", "A", <<>>),
+              Rq("D12", "str", "", [z |-> Str("XLARGE")]), Rq("D12", "str", "", [z |-> Str("XLARG")]),
+              Rq("D13", "str", "", <<>>), Rq("D14", "str", "", <<>>) }
 PoolSmall == { Rq("D1", "str", "A", <<>>), Rq("D1", "bytes", "B", <<>>), Rq("D2", "str", "", [v |-> Bool(TRUE)]), Rq("D2", "str", "", [v |-> Bool(FALSE)]),
                Rq("D2", "str", "", <<>>), Rq("D3", "str", "", <<>>), Rq("D4", "str", "", <<>>), Rq("D5", "str", "M", <<>>),
                Rq("D6", "str", "", [n |-> Int(3)]), Rq("D6", "str", "", [n |-> Int(4)]), Rq("D7", "str", "", <<>>), Rq("D8", "str", "", <<>>) }
